@@ -5,6 +5,9 @@
  *          -> componentwise reconstruction bound (residual in __float128)
  *          -> extraction routines (P, P_, L, U, D), apply, lower/upper (plain and strided), solve,
  *             inv / inv_ (column residuals), det / lndet / sgndet against the stored pivots
+ *          -> (one judged case in three, instead of the second right-hand side) the sweeps on every OTHER argument form the
+ *             header documents for them: extracted L / U matrices, storage with the entries outside the argument poisoned
+ *             (check_forms); one case in four: sweeps on integer factors built here, expected result exact (check_user_built)
  *   exact-failure classes (pivot exactly 0 / <= 0 in floating point BY CONSTRUCTION) must report failure;
  *   exactly factorable classes (permutation, diagonal, upper triangular, integer L0 D0 L0^T, integer L0 L0^T)
  *   must report success.  "Nearly singular" inputs are judged only if the library reports success.
@@ -2237,6 +2240,472 @@ static ld_t det_tolerance(fact_t const *f, qref_t const *R)
     return expm1l(e) * (1 + gp) + gp;
 }
 
+/* ------------------------------------------------------------------ every DOCUMENTED argument form of the sweeps
+ * include/a/linalg.h documents two kinds of matrix argument:
+ *   "A the matrix containing L and U (L and D / L form) in a compact form after ... decomposition"
+ *        plu_solve/inv/inv_/det/lndet/sgndet, EVERY ldl routine (ldl_lower/upper included), llt_solve/inv/inv_/det/lndet
+ *        -> these get the storage the factorization left, unmodified (check_solves / check_inverse / check_det above);
+ *   "L the lower triangular matrix L, stored in row-major order" / "U the upper triangular matrix U, ..."
+ *        plu_lower(_), plu_upper(_), llt_lower(_), llt_upper(_)
+ *        -> a lower (upper) triangular MATRIX: the entries on the other side of the diagonal are not part of the argument,
+ *           and for plu_lower the diagonal is the implied 1 of the unit factor (a_real_plu_L writes it, the compact storage
+ *           holds u_rr there and a_real_plu_solve passes exactly that).  These four pairs are driven here with
+ *             (a) the matrices the library's own extraction routines deliver (a_real_plu_L / a_real_plu_U / a_real_llt_L:
+ *                 exact-size blocks, zeros on the other side), and
+ *             (b) the compact storage with every entry that is not part of the argument overwritten by +-1e300 (one
+ *                 variant) and by NaN (another): strictly upper triangle for llt_lower/llt_upper, diagonal and strictly
+ *                 upper triangle for plu_lower, strictly lower triangle for plu_upper,
+ *           plain and strided, each sweep judged by the SAME tri_ratio oracle as on the compact storage, and the chain
+ *           apply -> lower -> upper by the solve_ratio oracle of <fam>_solve (the same operations in the same order).
+ *   LDL^T has no routine documented for separate L / D matrices.  The factors that a_real_ldl_L / a_real_ldl_D deliver are a
+ *   unit lower triangular matrix and a vector, i.e. documented arguments of the generic sweeps: L y = b by a_real_plu_lower,
+ *   z = y / d in the harness, L^T x = z by a_real_llt_upper (unit diagonal: the division is by 1) - the operations of
+ *   ldl_lower + ldl_upper in the same order, judged by the same oracles.  What the strictly upper triangle of the LDL
+ *   storage holds is NOT specified by the header (a_real_ldl could keep L^T there for its own sweeps), so the ldl routines on
+ *   a storage with that triangle poisoned, ldl_lower on the extracted L, and llt_solve on the extracted L are only RECORDED
+ *   (…(not judged) counters, *-diff maxima), never flagged.
+ * The difference of every result to the compact-storage result is recorded (<fam>-forms-diff-to-compact), not judged.
+ * Calibration on the unchanged tree (quick seeds 1..5, thorough seed 1; same c = 4 as the clauses they repeat): worst ratio to
+ * the c = 1 bound 0.57 for a sweep, 0.82 for a chain (llt); every recorded difference to the compact-storage result is 0.
+ */
+enum { FM_EXTRACTED, FM_BIG, FM_NAN, FM_N };
+
+static double *fm_block(size_t cnt)
+{
+    double *p = (double *)malloc((cnt ? cnt : 1) * sizeof(double));
+    if (!p) { fprintf(stderr, "vf: out of memory\n"); exit(2); }
+    for (size_t i = 0; i < cnt; ++i) { memcpy(p + i, &FILL, 8); }
+    return p;
+}
+static double fm_poison(int form, size_t i) { return form == FM_NAN ? (double)NAN : (i & 1) ? -1e300 : 1e300; }
+
+/* side 0: the argument of <fam>_lower, side 1: of <fam>_upper.  Returns an exact-size block; label = key component */
+static double *fm_matrix(fact_t const *f, int side, int form, char *label, size_t ll)
+{
+    unsigned const n = f->n;
+    char const *pv = form == FM_BIG ? "1e300" : "nan";
+    double *M;
+    if (form == FM_EXTRACTED)
+    {
+        M = fm_block((size_t)n * n);
+        ++vf.evals;
+        if (f->fam == FAM_PLU && side) { vf_log("a_real_plu_U(n, A, U)"); a_real_plu_U(n, f->F, M); snprintf(label, ll, "extracted-U"); }
+        else if (f->fam == FAM_PLU) { vf_log("a_real_plu_L(n, A, L)"); a_real_plu_L(n, f->F, M); snprintf(label, ll, "extracted-L"); }
+        else if (f->fam == FAM_LDL) { vf_log("a_real_ldl_L(n, A, L)"); a_real_ldl_L(n, f->F, M); snprintf(label, ll, "extracted-ldl-L"); }
+        else { vf_log("a_real_llt_L(n, A, L)"); a_real_llt_L(n, f->F, M); snprintf(label, ll, "extracted-L"); }
+        return M;
+    }
+    M = xd_copy(f->F, (size_t)n * n);
+    for (unsigned r = 0; r < n; ++r)
+    {
+        for (unsigned c = 0; c < n; ++c)
+        {
+            int kill;
+            if (f->fam == FAM_PLU) { kill = side ? c < r : c >= r; }
+            else { kill = c > r; }
+            if (kill) { M[(size_t)n * r + c] = fm_poison(form, (size_t)n * r + c); }
+        }
+    }
+    if (f->fam == FAM_PLU && side) { snprintf(label, ll, "compact-with-lower-triangle-%s", pv); }
+    else if (f->fam == FAM_PLU) { snprintf(label, ll, "compact-with-diagonal-and-upper-triangle-%s", pv); }
+    else { snprintf(label, ll, "compact-with-upper-triangle-%s", pv); }
+    return M;
+}
+
+/* max_i |a_i - b_i| / max_i |b_i| (0 when bitwise equal, 1e300 when one of them is not finite) */
+static double fm_diff(double const *a, double const *b, unsigned n)
+{
+    if (memcmp(a, b, n * sizeof(double)) == 0) { return 0; }
+    long double d = 0, s = 0;
+    for (unsigned i = 0; i < n; ++i)
+    {
+        if (!isfinite(a[i]) || !isfinite(b[i])) { return a[i] == b[i] ? 0 : 1e300; }
+        long double const e = fabsl((long double)a[i] - b[i]);
+        if (e > d) { d = e; }
+        if (fabsl((long double)b[i]) > s) { s = fabsl((long double)b[i]); }
+    }
+    if (d == 0) { return 0; }
+    d = s > 0 ? d / s : d;
+    return d > 1e300L ? 1e300 : (double)d;
+}
+
+/* one sweep of family `api` (FAM_PLU / FAM_LLT entry points) on argument M in form `label`, plain (col < 0) or strided on
+   column col of an n x n block; rhs in, solution out.  Returns 0 if the result was not finite and legitimately skipped. */
+static int fm_sweep(fact_t const *f, int api, int upper, double const *M, double const *ref, int kind, char const *label, char const *clause, int col, double const *rhs,
+                    double *sol, double const *cref)
+{
+    unsigned const n = f->n;
+    char rn[40], cl[96];
+    unsigned wrow;
+    int const strided = col >= 0;
+    snprintf(rn, sizeof(rn), "a_real_%s_%s%s", fam_name[api], upper ? "upper" : "lower", strided ? "_" : "");
+    vf_log("%s(n, %s, %s)", rn, label, strided ? "column of an n x n block" : "vector");
+    ++vf.evals;
+    if (!strided)
+    {
+        gd_t y = gd_new(n);
+        memcpy(y.v, rhs, n * sizeof(double));
+        if (upper) { call_upper(api, n, M, y.v, 0); }
+        else { call_lower(api, n, M, y.v, 0); }
+        gd_guard(&y, rn, upper ? "x" : "y");
+        memcpy(sol, y.v, n * sizeof(double));
+        gd_free(&y);
+    }
+    else
+    {
+        unsigned const j = (unsigned)col;
+        gd_t B = gd_new((size_t)n * n);
+        for (size_t i = 0; i < (size_t)n * n; ++i) { B.v[i] = 1000.0 + (double)i; }
+        for (unsigned i = 0; i < n; ++i) { B.v[(size_t)n * i + j] = rhs[i]; }
+        if (upper) { call_upper(api, n, M, B.v + j, 1); }
+        else { call_lower(api, n, M, B.v + j, 1); }
+        gd_guard(&B, rn, "strided column");
+        for (size_t i = 0; i < (size_t)n * n; ++i)
+        {
+            if (i % n != j && B.v[i] != 1000.0 + (double)i)
+            {
+                snprintf(cl, sizeof(cl), "%s/wrote-outside-its-column", label);
+                viol2(rn, cl, "%s n=%u class=%s argument form %s, column %u: cell (%zu,%zu) of the block changed", rn, n, f->cname, label, j, i / n, i % n);
+                break;
+            }
+        }
+        for (unsigned i = 0; i < n; ++i) { sol[i] = B.v[(size_t)n * i + j]; }
+        gd_free(&B);
+    }
+    /* an overflow is legitimate only where the same sweep of the same right-hand side on the compact storage (cref; NULL if the
+       right-hand sides differ) overflows as well: a NaN picked up from a poisoned entry is not an overflow */
+    if (!all_finite(sol, n) && (!cref || !all_finite(cref, n)) && nonfinite_skip(f, "solution")) { return 0; }
+    double const ratio = tri_ratio(kind, n, ref, rhs, sol, &wrow);
+    vf_count_dyn(clause, 1);
+    mx(fam_name[f->fam], "-forms-sweep-residual-ratio", ratio);
+    if (!(ratio <= CSAFE))
+    {
+        snprintf(cl, sizeof(cl), "%s/solution-residual-outside-bound", label);
+        viol2(rn, cl, "%s n=%u class=%s, argument form %s (documented: the %s triangular matrix): row %u of rhs - T sol is %.4g times the gamma_{n+1}|T||sol| bound (c=%g allowed); rhs[%u]=%.17g sol[%u]=%.17g",
+              rn, n, f->cname, label, upper && api == FAM_PLU ? "upper" : "lower", wrow, ratio, CSAFE, wrow, rhs[wrow], wrow, sol[wrow]);
+    }
+    return all_finite(sol, n);
+}
+
+static void fm_chain(fact_t const *f, char const *rn, char const *label, char const *clause, double const *b, double const *x)
+{
+    unsigned const n = f->n;
+    unsigned wrow;
+    double wres, wbound;
+    char cl[96];
+    double const ratio = solve_ratio(f, b, x, f->fam == FAM_PLU ? 3 * n : 3 * n + 1, &wrow, &wres, &wbound);
+    vf_count_dyn(clause, 1);
+    mx(fam_name[f->fam], "-forms-chain-residual-ratio", ratio);
+    if (!(ratio <= CSAFE))
+    {
+        snprintf(cl, sizeof(cl), "%s/lower-upper-chain-residual-outside-bound", label);
+        viol2(rn, cl, "%s n=%u class=%s: lower then upper sweep on argument form %s: row %u of b - A x = %.6e, bound c*gamma_3n*(W|x|) = %.6e (ratio to c=1 bound %.4g)", rn, n,
+              f->cname, label, wrow, wres, wbound, ratio);
+    }
+}
+
+static void fm_record(char const *same, char const *differs, char const *maxname, double const *a, double const *b, unsigned n)
+{
+    double const d = fm_diff(a, b, n);
+    vf_count_dyn(d == 0 ? same : differs, 1);
+    vf_max_dyn(maxname, d, NULL);
+}
+
+static void check_forms(fact_t *f, vf_rng *r, int rhs_kind)
+{
+    unsigned const n = f->n;
+    int const fam = f->fam;
+    char const *fn = fam_name[fam];
+    static char const *const clause[3][FM_N] = {
+        {"plu-sweeps-on-extracted-LU", "plu-sweeps-on-compact-rest-1e300", "plu-sweeps-on-compact-rest-nan"},
+        {"ldl-sweeps-on-extracted-LD", "", ""},
+        {"llt-sweeps-on-extracted-L", "llt-sweeps-on-compact-upper-1e300", "llt-sweeps-on-compact-upper-nan"}};
+    double b[NMAX], rhs[NMAX], yc[NMAX], xc[NMAX], y[NMAX], x[NMAX];
+    char dn[56];
+    snprintf(dn, sizeof(dn), "%s-forms-diff-to-compact", fn);
+
+    for (unsigned i = 0; i < n; ++i) { b[i] = rhs_kind ? (double)vf_range(r, -9, 9) : vf_uniform(r, -1.0, 1.0); }
+    if (f->xscale)
+    {
+        unsigned const m = (unsigned)vf_below(r, 6);
+        int const h = (int)vf_range(r, -1000, 1000);
+        for (unsigned i = 0; i < n && m >= 3; ++i)
+        {
+            b[i] = ldexp(b[i], m == 3 ? h : m == 4 ? (int)vf_range(r, -1000, 1000) : (int)vf_range(r, -300, 300));
+        }
+    }
+    log_matrix("b(forms)", b, 1, n);
+    for (unsigned i = 0; i < n; ++i) { rhs[i] = fam == FAM_PLU ? b[f->p[i]] : b[i]; }
+    int const col = (int)vf_below(r, n);
+
+    /* reference: the same sweeps on the compact storage (judged by check_solves, here only the values) */
+    memcpy(yc, rhs, n * sizeof(double));
+    call_lower(fam, n, f->F, yc, 0);
+    memcpy(xc, yc, n * sizeof(double));
+    call_upper(fam, n, f->F, xc, 0);
+    {
+        char rn[40];
+        snprintf(rn, sizeof(rn), "a_real_%s_upper", fn);
+        inputs_intact(f, rn);
+    }
+
+    if (fam == FAM_LDL)
+    {
+        char label[64];
+        double z[NMAX];
+        double *L = fm_matrix(f, 0, FM_EXTRACTED, label, sizeof(label));
+        double *Lref = xd_copy(L, (size_t)n * n);
+        gd_t d = gd_new(n);
+        vf_log("a_real_ldl_D(n, A, d)");
+        ++vf.evals;
+        a_real_ldl_D(n, f->F, d.v);
+        gd_guard(&d, "a_real_ldl_D", "d");
+        /* (judged) the documented generic sweeps on the extracted factors: L y = b, z = y / d, L^T x = z */
+        for (int strided = 0; strided < 2; ++strided)
+        {
+            if (!fm_sweep(f, FAM_PLU, 0, L, L, TK_UNIT_LOWER, label, clause[fam][FM_EXTRACTED], strided ? col : -1, rhs, y, yc)) { continue; }
+            vf_max_dyn(dn, fm_diff(y, yc, n), NULL);
+            for (unsigned i = 0; i < n; ++i) { z[i] = y[i] / d.v[i]; }
+            if (!all_finite(z, n) && nonfinite_skip(f, "solution")) { continue; }
+            if (!fm_sweep(f, FAM_LLT, 1, L, L, TK_LOWER_T, label, clause[fam][FM_EXTRACTED], strided ? col : -1, z, x, memcmp(y, yc, n * sizeof(double)) == 0 ? xc : NULL)) { continue; }
+            vf_max_dyn(dn, fm_diff(x, xc, n), NULL);
+            fm_chain(f, strided ? "a_real_llt_upper_" : "a_real_llt_upper", label, clause[fam][FM_EXTRACTED], b, x);
+        }
+        /* (recorded only) ldl_lower on the extracted L; every ldl sweep and ldl_solve on a storage whose strictly upper triangle is poisoned */
+        memcpy(y, rhs, n * sizeof(double));
+        vf_log("a_real_ldl_lower(n, %s, y)  (recorded, not judged)", label);
+        ++vf.evals;
+        a_real_ldl_lower(n, L, y);
+        fm_record("ldl_lower-on-extracted-L-same-result", "ldl_lower-on-extracted-L-differs(not judged)", "ldl-undocumented-forms-diff(not judged)", y, yc, n);
+        const_intact("a_real_plu_lower+a_real_llt_upper", "extracted ldl L", L, Lref, (size_t)n * n * sizeof(double));
+        free(L);
+        free(Lref);
+        gd_free(&d);
+        {
+            int const form = (vf.case_no & 1) ? FM_NAN : FM_BIG;
+            double *P = fm_matrix(f, 0, form, label, sizeof(label));
+            double *Pref = xd_copy(P, (size_t)n * n);
+            gd_t s = gd_new(n);
+            vf_log("a_real_ldl_lower / _upper / _solve(n, %s, ..)  (recorded, not judged)", label);
+            vf.evals += 3;
+            memcpy(y, rhs, n * sizeof(double));
+            a_real_ldl_lower(n, P, y);
+            memcpy(x, y, n * sizeof(double));
+            a_real_ldl_upper(n, P, x);
+            fm_record("ldl-sweeps-upper-poisoned-same-result", "ldl-sweeps-upper-poisoned-differ(not judged)", "ldl-undocumented-forms-diff(not judged)", x, xc, n);
+            memcpy(s.v, rhs, n * sizeof(double));
+            a_real_ldl_solve(n, P, s.v);
+            gd_guard(&s, "a_real_ldl_solve", "x");
+            fm_record("ldl_solve-upper-poisoned-same-result", "ldl_solve-upper-poisoned-differs(not judged)", "ldl-undocumented-forms-diff(not judged)", s.v, xc, n);
+            const_intact("a_real_ldl_lower+upper+solve", "upper-poisoned storage", P, Pref, (size_t)n * n * sizeof(double));
+            gd_free(&s);
+            free(P);
+            free(Pref);
+        }
+        return;
+    }
+
+    for (int form = 0; form < FM_N; ++form)
+    {
+        char ll[64], lu[64], rn[40];
+        double *L = fm_matrix(f, 0, form, ll, sizeof(ll));
+        double *U = fam == FAM_PLU ? fm_matrix(f, 1, form, lu, sizeof(lu)) : L;
+        double *Lref = xd_copy(L, (size_t)n * n), *Uref = fam == FAM_PLU ? xd_copy(U, (size_t)n * n) : NULL;
+        if (fam != FAM_PLU) { snprintf(lu, sizeof(lu), "%s", ll); }
+        /* the oracle reads the triangle that IS the argument: from the extracted matrix itself, resp. from the storage */
+        double const *refL = form == FM_EXTRACTED ? L : f->F, *refU = form == FM_EXTRACTED ? U : f->F;
+        for (int strided = 0; strided < 2; ++strided)
+        {
+            if (!fm_sweep(f, fam, 0, L, refL, tk_lower[fam], ll, clause[fam][form], strided ? col : -1, rhs, y, yc)) { continue; }
+            vf_max_dyn(dn, fm_diff(y, yc, n), NULL);
+            if (!fm_sweep(f, fam, 1, U, refU, tk_upper[fam], lu, clause[fam][form], strided ? col : -1, y, x, memcmp(y, yc, n * sizeof(double)) == 0 ? xc : NULL)) { continue; }
+            vf_max_dyn(dn, fm_diff(x, xc, n), NULL);
+            snprintf(rn, sizeof(rn), "a_real_%s_upper%s", fn, strided ? "_" : "");
+            fm_chain(f, rn, lu, clause[fam][form], b, x);
+        }
+        if (fam == FAM_LLT && form == FM_EXTRACTED)
+        {
+            /* (recorded only) llt_solve is documented for the storage a_real_llt left, not for the extracted matrix */
+            gd_t s = gd_new(n);
+            memcpy(s.v, rhs, n * sizeof(double));
+            vf_log("a_real_llt_solve(n, %s, x)  (recorded, not judged)", ll);
+            ++vf.evals;
+            a_real_llt_solve(n, L, s.v);
+            gd_guard(&s, "a_real_llt_solve", "x");
+            fm_record("llt_solve-on-extracted-L-same-result", "llt_solve-on-extracted-L-differs(not judged)", "llt-undocumented-forms-diff(not judged)", s.v, xc, n);
+            gd_free(&s);
+        }
+        const_intact(fam == FAM_PLU ? "a_real_plu_lower(_)" : "a_real_llt_lower(_)+upper(_)", ll, L, Lref, (size_t)n * n * sizeof(double));
+        if (fam == FAM_PLU) { const_intact("a_real_plu_upper(_)", lu, U, Uref, (size_t)n * n * sizeof(double)); }
+        free(L);
+        free(Lref);
+        if (fam == FAM_PLU) { free(U); free(Uref); }
+    }
+}
+
+/* ------------------------------------------------------------------ sweeps on a factor the USER built (no factorization of
+ * ours in between for PLU / LLT): exact small-integer triangular matrices with zeros on the other side of the diagonal -
+ * the documented "lower / upper triangular matrix" argument - and right-hand sides T*x0 with integer x0.  Entries |t| <= 3,
+ * diagonal 1 (unit lower), 1,2,4 (Cholesky-type lower), +-1,+-2,+-4 (upper), |x0| <= 4, n <= 48: every partial sum of any
+ * summation order is an integer below 2^12 and every division is of an exact multiple by a power of two, so the expected
+ * result is x0 itself and the judge is ==.  LDL^T (documented for the storage a_real_ldl left only): A0 = L0 D0 L0^T,
+ * d = +-1,+-2,+-4, is factored by the library (all intermediates integers below 2^14); the sweeps are judged on that storage
+ * only when its lower triangle and diagonal hold exactly L0 and D0 (counted otherwise). */
+static void ub_expect(char const *rn, char const *form, unsigned n, double const *got, double const *want)
+{
+    VF_COUNT("sweeps-on-user-built-factor");
+    for (unsigned i = 0; i < n; ++i)
+    {
+        if (!(got[i] == want[i]))
+        {
+            char cl[96];
+            snprintf(cl, sizeof(cl), "%s/not-the-exact-solution", form);
+            viol2(rn, cl, "%s n=%u on %s (small integers, zeros on the other side of the diagonal, rhs = T*x0; every intermediate is exactly representable): component %u is %.17g, exact solution %.17g",
+                  rn, n, form, i, got[i], want[i]);
+            return;
+        }
+    }
+}
+/* run sweep `upper` of family api on T (plain, then strided on column col), expect x0 */
+static void ub_sweeps(int api, int upper, unsigned n, double const *T, char const *form, double const *rhs, double const *x0, unsigned col)
+{
+    char rn[40];
+    double *Tref = xd_copy(T, (size_t)n * n);
+    gd_t y = gd_new(n), B = gd_new((size_t)n * n);
+    double colv[NMAX];
+    snprintf(rn, sizeof(rn), "a_real_%s_%s", fam_name[api], upper ? "upper" : "lower");
+    vf_log("%s(n, %s, T*x0)", rn, form);
+    ++vf.evals;
+    memcpy(y.v, rhs, n * sizeof(double));
+    if (upper) { call_upper(api, n, T, y.v, 0); }
+    else { call_lower(api, n, T, y.v, 0); }
+    gd_guard(&y, rn, "y");
+    ub_expect(rn, form, n, y.v, x0);
+    snprintf(rn, sizeof(rn), "a_real_%s_%s_", fam_name[api], upper ? "upper" : "lower");
+    vf_log("%s(n, %s, column %u of an n x n block)", rn, form, col);
+    ++vf.evals;
+    for (size_t i = 0; i < (size_t)n * n; ++i) { B.v[i] = 1000.0 + (double)i; }
+    for (unsigned i = 0; i < n; ++i) { B.v[(size_t)n * i + col] = rhs[i]; }
+    if (upper) { call_upper(api, n, T, B.v + col, 1); }
+    else { call_lower(api, n, T, B.v + col, 1); }
+    gd_guard(&B, rn, "strided column");
+    for (unsigned i = 0; i < n; ++i) { colv[i] = B.v[(size_t)n * i + col]; }
+    ub_expect(rn, form, n, colv, x0);
+    for (size_t i = 0; i < (size_t)n * n; ++i)
+    {
+        if (i % n != col && B.v[i] != 1000.0 + (double)i)
+        {
+            char cl[96];
+            snprintf(cl, sizeof(cl), "%s/wrote-outside-its-column", form);
+            viol2(rn, cl, "%s n=%u on %s, column %u: cell (%zu,%zu) of the block changed", rn, n, form, col, i / n, i % n);
+            break;
+        }
+    }
+    const_intact(rn, form, T, Tref, (size_t)n * n * sizeof(double));
+    gd_free(&y);
+    gd_free(&B);
+    free(Tref);
+}
+
+static void check_user_built(int fam, unsigned n, vf_rng *r)
+{
+    size_t const nn = (size_t)n * n;
+    double *L = (double *)calloc(nn ? nn : 1, sizeof(double)), *T = (double *)calloc(nn ? nn : 1, sizeof(double));
+    double x0[NMAX], w[NMAX], bl[NMAX], bu[NMAX], d[NMAX];
+    unsigned const col = (unsigned)vf_below(r, n);
+    /* L: integer lower triangular, zeros above; diagonal 1 (plu, ldl) or 1,2,4 (llt) */
+    for (unsigned i = 0; i < n; ++i)
+    {
+        for (unsigned k = 0; k < i; ++k) { L[(size_t)n * i + k] = (double)vf_range(r, -3, 3); }
+        L[(size_t)n * i + i] = fam == FAM_LLT ? (double)(1 << vf_below(r, 3)) : 1.0;
+        d[i] = (vf_chance(r, 1, 2) ? -1.0 : 1.0) * (double)(1 << vf_below(r, 3));
+        x0[i] = (double)vf_range(r, -4, 4);
+        w[i] = (double)vf_range(r, -4, 4);
+    }
+    for (unsigned i = 0; i < n; ++i) /* bl = L w (lower sweep must return w) */
+    {
+        double s = 0;
+        for (unsigned k = 0; k <= i; ++k) { s += L[(size_t)n * i + k] * w[k]; }
+        bl[i] = s;
+    }
+    log_matrix("user-built L0", L, n, n);
+    if (fam == FAM_PLU)
+    {
+        /* U: integer upper triangular, zeros below, diagonal +-1,+-2,+-4 */
+        for (unsigned i = 0; i < n; ++i)
+        {
+            T[(size_t)n * i + i] = d[i];
+            for (unsigned k = i + 1; k < n; ++k) { T[(size_t)n * i + k] = (double)vf_range(r, -3, 3); }
+        }
+        for (unsigned i = 0; i < n; ++i)
+        {
+            double s = 0;
+            for (unsigned k = i; k < n; ++k) { s += T[(size_t)n * i + k] * x0[k]; }
+            bu[i] = s;
+        }
+        log_matrix("user-built U0", T, n, n);
+        double *Lx = xd_copy(L, nn), *Ux = xd_copy(T, nn);
+        ub_sweeps(FAM_PLU, 0, n, Lx, "user-built-unit-lower-L", bl, w, col);
+        ub_sweeps(FAM_PLU, 1, n, Ux, "user-built-upper-U", bu, x0, col);
+        free(Lx);
+        free(Ux);
+    }
+    else if (fam == FAM_LLT)
+    {
+        for (unsigned i = 0; i < n; ++i) /* bu = L^T x0 */
+        {
+            double s = 0;
+            for (unsigned k = i; k < n; ++k) { s += L[(size_t)n * k + i] * x0[k]; }
+            bu[i] = s;
+        }
+        double *Lx = xd_copy(L, nn);
+        ub_sweeps(FAM_LLT, 0, n, Lx, "user-built-lower-L", bl, w, col);
+        ub_sweeps(FAM_LLT, 1, n, Lx, "user-built-lower-L", bu, x0, col);
+        free(Lx);
+    }
+    else
+    {
+        /* A0 = L D L^T exactly; the storage must come from a_real_ldl (the only documented form) */
+        for (unsigned i = 0; i < n; ++i)
+        {
+            for (unsigned k = 0; k <= i; ++k)
+            {
+                double s = 0;
+                for (unsigned t = 0; t <= k; ++t) { s += L[(size_t)n * i + t] * d[t] * L[(size_t)n * k + t]; }
+                T[(size_t)n * i + k] = T[(size_t)n * k + i] = s;
+            }
+        }
+        for (unsigned i = 0; i < n; ++i) /* bu = D L^T x0 */
+        {
+            double s = 0;
+            for (unsigned k = i; k < n; ++k) { s += L[(size_t)n * k + i] * x0[k]; }
+            bu[i] = d[i] * s;
+        }
+        double *F = xd_copy(T, nn);
+        vf_log("a_real_ldl(n, A0 = L0 D0 L0^T)  (user-built integer factors)");
+        ++vf.evals;
+        int const rc = a_real_ldl(n, F);
+        int exact = rc == 0;
+        for (unsigned i = 0; i < n && exact; ++i)
+        {
+            for (unsigned k = 0; k <= i; ++k)
+            {
+                if (!(F[(size_t)n * i + k] == (k == i ? d[i] : L[(size_t)n * i + k]))) { exact = 0; break; }
+            }
+        }
+        if (exact)
+        {
+            VF_COUNT("user-built-ldl-storage-holds-L0-D0");
+            ub_sweeps(FAM_LDL, 0, n, F, "storage-of-integer-L0D0L0t", bl, w, col);
+            ub_sweeps(FAM_LDL, 1, n, F, "storage-of-integer-L0D0L0t", bu, x0, col);
+        }
+        else { VF_COUNT("user-built-ldl-storage-not-exact-skipped"); }
+        free(F);
+    }
+    free(L);
+    free(T);
+}
+
 /* ------------------------------------------------------------------ case plan */
 #define QUICK_CASES 20001u
 #define THOROUGH_CASES 2000001u
@@ -2353,7 +2822,10 @@ static void vf_case(uint64_t c, vf_rng *r)
         }
         check_extract(&f);
         check_solves(&f, r, 0);
-        check_solves(&f, r, 1);
+        /* one judged case in three: the second right-hand side goes through the other documented argument forms of the sweeps
+           (extracted factors, compact storage with the entries outside the argument poisoned) instead of the compact pipeline */
+        if (vf_chance(r, 1, 3)) { check_forms(&f, r, vf_chance(r, 1, 2)); }
+        else { check_solves(&f, r, 1); }
         check_inverse(&f);
         det_t d = check_det(&f);
         if (fam == FAM_LLT && n <= 24 && (cls == C_SPD || cls == C_SPD_INT || cls == C_SCALED || cls == C_DIAG || cls == C_TRIDIAG))
@@ -2363,4 +2835,7 @@ static void vf_case(uint64_t c, vf_rng *r)
     }
     fact_free(&f);
     free(A0);
+    /* one case in four (every (family, n) pair of the structured part comes round: 36 consecutive cases hold all of them) also
+       drives the sweeps on integer factors built here, independent of the matrix of the case */
+    if (c / 36 % 4 == 0) { check_user_built(fam, n, r); }
 }
